@@ -19,7 +19,9 @@ def run(run):
                        'graphs with asset-less nodes are not round-tripped (their names derive from ids)']
     gsm.mc_slice(run, 'C10', 6, depth=7 if quick else 8, must=('SaveLoad',))
     gsm.bfs_slice(run, 'C10', 4 if quick else 5, keep=KEEP)
+    gsm.bfs_slice(run, 'C10R', 5 if quick else 6, keep=KEEP)      # undo / remove_node, then save and load
     # dedicated slice for the recorded open finding (two attackers sharing a name): always exercised
     gsm.bfs_slice(run, 'C10F', 4, keep=KEEP)
-    gsm.simulate(run, 'ALL', 12, 3000 if quick else 40000, keep=KEEP, lang='LDef', timeout=300 if quick else 1800)
+    gsm.simulate(run, 'C10', 9, 3000 if quick else 40000, keep=KEEP, free=False, timeout=300 if quick else 1800)
+    gsm.simulate(run, 'ALL', 12, 2000 if quick else 40000, keep=KEEP, lang='LDef', timeout=300 if quick else 1800)
     gsm.simulate(run, 'ALL', 12, 2000 if quick else 40000, keep=KEEP, timeout=300 if quick else 1800)
